@@ -583,6 +583,12 @@ func (e *Exec) branch(c *Term) bool {
 			rf = e.sv.CheckWith(notc)
 		}
 	}
+	if rt == Unknown {
+		rt = e.fallbackCheck(c)
+	}
+	if rf == Unknown && rt != Unsat {
+		rf = e.fallbackCheck(notc)
+	}
 	if rt == Unsat {
 		e.decisions = append(e.decisions, Decision{B: false, Forced: true})
 		e.pos++
@@ -903,13 +909,29 @@ func (e *Exec) finishPanic(res *PathResult, p targetPanic) {
 	e.x.cexSeen[res.Msg]++
 	n := e.x.cexSeen[res.Msg]
 	e.x.mu.Unlock()
+	e.sync()
+	r := e.sv.Check()
+	if r == Unknown {
+		r = e.fallbackCheck(e.ts.True)
+		if r == Sat {
+			res.Model = e.fallbackModel(e.ts.True)
+			return
+		}
+	}
+	if r == Unsat {
+		// reached only because an earlier feasibility query was inconclusive
+		res.Kind, res.Msg = "assume", "infeasible"
+		return
+	}
+	if r == Unknown {
+		res.Kind = "inconclusive"
+		e.inconclusive++
+		return
+	}
 	if n > 3 {
 		return
 	}
-	e.sync()
-	if e.sv.Check() == Sat {
-		res.Model = e.model()
-	}
+	res.Model = e.model()
 }
 
 func sortedKeys(m map[string]bool) []string {
